@@ -1,0 +1,144 @@
+//! Verification hooks (cargo feature `verif`, off by default; add-only).
+//!
+//! * H2: the macros register, per generated cache, a *dump* closure (entries with their hit
+//!   counters and ages, order queue) and an *age* closure (shift every entry's birth back), so a
+//!   harness can observe the statics hidden inside generated functions and use virtual time.
+//! * H1: `yield_point` is called immediately before every lock acquisition; with no scheduler
+//!   installed it does nothing.
+//!
+//! Nothing here changes the behaviour of the library; with the feature off this module is not compiled.
+
+use std::cell::RefCell;
+use std::collections::HashMap;
+use std::sync::{Arc, Mutex, OnceLock};
+
+/// Observable state of one cache instance.
+#[derive(Clone, Debug, Default)]
+pub struct CacheDump {
+    /// key, `{:?}` of the value, estimated size (0 when the value type has no estimator in scope),
+    /// age in milliseconds, hit counter
+    pub entries: Vec<(String, String, usize, u64, u64)>,
+    pub queue: Vec<String>,
+}
+
+type DumpFn = Arc<dyn Fn() -> CacheDump + Send + Sync>;
+type AgeFn = Arc<dyn Fn(u64) + Send + Sync>;
+
+fn globals() -> &'static Mutex<HashMap<String, (DumpFn, AgeFn)>> {
+    static R: OnceLock<Mutex<HashMap<String, (DumpFn, AgeFn)>>> = OnceLock::new();
+    R.get_or_init(|| Mutex::new(HashMap::new()))
+}
+
+thread_local! {
+    static LOCALS: RefCell<HashMap<String, (Arc<dyn Fn() -> CacheDump>, Arc<dyn Fn(u64)>)>> =
+        RefCell::new(HashMap::new());
+}
+
+/// Register the dump/age closures of a global or async cache (idempotent per name).
+pub fn register_global(
+    name: &str,
+    dump: impl Fn() -> CacheDump + Send + Sync + 'static,
+    age: impl Fn(u64) + Send + Sync + 'static,
+) {
+    globals()
+        .lock()
+        .unwrap()
+        .entry(name.to_string())
+        .or_insert_with(|| (Arc::new(dump), Arc::new(age)));
+}
+
+/// Register the dump/age closures of a thread-scope cache for the calling thread (idempotent).
+pub fn register_thread_local(
+    name: &str,
+    dump: impl Fn() -> CacheDump + 'static,
+    age: impl Fn(u64) + 'static,
+) {
+    LOCALS.with(|l| {
+        l.borrow_mut()
+            .entry(name.to_string())
+            .or_insert_with(|| (Arc::new(dump), Arc::new(age)));
+    });
+}
+
+pub fn dump_global(name: &str) -> Option<CacheDump> {
+    let f = globals().lock().unwrap().get(name).map(|p| p.0.clone());
+    f.map(|f| f())
+}
+
+pub fn age_global(name: &str, ms: u64) -> bool {
+    let f = globals().lock().unwrap().get(name).map(|p| p.1.clone());
+    f.map(|f| f(ms)).is_some()
+}
+
+pub fn dump_thread_local(name: &str) -> Option<CacheDump> {
+    let f = LOCALS.with(|l| l.borrow().get(name).map(|p| p.0.clone()));
+    f.map(|f| f())
+}
+
+pub fn age_thread_local(name: &str, ms: u64) -> bool {
+    let f = LOCALS.with(|l| l.borrow().get(name).map(|p| p.1.clone()));
+    f.map(|f| f(ms)).is_some()
+}
+
+/// Names of all registered global/async caches.
+pub fn global_names() -> Vec<String> {
+    globals().lock().unwrap().keys().cloned().collect()
+}
+
+// ---------------------------------------------------------------------------------------------
+// H1: yield points
+
+/// Kind of acquisition about to happen.
+#[derive(Clone, Copy, Debug, PartialEq, Eq)]
+pub enum Acq {
+    /// `Mutex::lock` / `RwLock::write`
+    Exclusive,
+    /// `RwLock::read`
+    Shared,
+}
+
+/// What a deterministic scheduler installed by a harness observes.
+pub trait Hooks: Send + Sync {
+    /// Called immediately before a lock acquisition at `site` (file id * 1000 + ordinal) on the
+    /// lock at `lock_addr`. `free` says whether the acquisition would succeed right now. The
+    /// implementation may park the calling thread here.
+    fn before_acquire(&self, site: u32, lock_addr: usize, mode: Acq, free: &dyn Fn() -> bool);
+    /// A guard announced with [`hold`] went out of scope.
+    fn released(&self, lock_addr: usize);
+}
+
+fn hooks() -> &'static Mutex<Option<Arc<dyn Hooks>>> {
+    static S: OnceLock<Mutex<Option<Arc<dyn Hooks>>>> = OnceLock::new();
+    S.get_or_init(|| Mutex::new(None))
+}
+
+pub fn install_hooks(h: Option<Arc<dyn Hooks>>) {
+    *hooks().lock().unwrap() = h;
+}
+
+/// Called immediately before a lock acquisition; a no-op when no hooks are installed.
+#[inline]
+pub fn yield_point(site: u32, lock_addr: usize, mode: Acq, free: &dyn Fn() -> bool) {
+    let h = hooks().lock().unwrap().clone();
+    if let Some(h) = h {
+        h.before_acquire(site, lock_addr, mode, free);
+    }
+}
+
+/// Declared right BEFORE a `let guard = lock…;` in the same scope, so that it is dropped right
+/// AFTER the guard: reports the release of that lock to the installed hooks.
+pub struct Held(usize);
+
+#[inline]
+pub fn hold(lock_addr: usize) -> Held {
+    Held(lock_addr)
+}
+
+impl Drop for Held {
+    fn drop(&mut self) {
+        let h = hooks().lock().unwrap().clone();
+        if let Some(h) = h {
+            h.released(self.0);
+        }
+    }
+}
